@@ -5,6 +5,7 @@ import (
 
 	"github.com/jsightapi/jsight-schema-core/errs"
 	"github.com/jsightapi/jsight-schema-core/notations/jschema/ischema"
+	"github.com/jsightapi/jsight-schema-core/notations/jschema/ischema/constraint"
 )
 
 // CheckRecursion checks that given schema doesn't have invalid recursions.
@@ -146,7 +147,12 @@ func (c *recursionChecker) check(node ischema.Node, types map[string]ischema.Typ
 
 	// We should check all fields in the object 'cause some of them can be required.
 	case *ischema.ObjectNode:
-		for _, n := range node.Children() {
+		required := requiredKeys(node)
+		for i, n := range node.Children() {
+			if _, ok := required[node.Key(i).Key]; !ok {
+				// Not a required property (keys can be optional by default).
+				continue
+			}
 			if err := c.check(n, types); err != nil {
 				return err
 			}
@@ -157,6 +163,17 @@ func (c *recursionChecker) check(node ischema.Node, types map[string]ischema.Typ
 	}
 
 	return nil
+}
+
+// requiredKeys returns the names of the properties the object requires.
+func requiredKeys(node *ischema.ObjectNode) map[string]struct{} {
+	keys := map[string]struct{}{}
+	if c, ok := node.Constraint(constraint.RequiredKeysConstraintType).(*constraint.RequiredKeys); ok {
+		for _, k := range c.Keys() {
+			keys[k] = struct{}{}
+		}
+	}
+	return keys
 }
 
 func (c *recursionChecker) checkMixedValueNode(
